@@ -4,7 +4,7 @@ sys.path.insert(0, os.path.dirname(os.path.dirname(os.path.abspath(__file__))))
 from checks import lib, mailfam
 
 ACTS = ["Deliver", "Select", "Noop", "Idle", "Store", "Fetch", "Expunge", "Append"]
-ALL = ACTS + ["Copy", "Move"]
+ALL = ACTS + ["Copy", "Move", "Status"]
 QUICK = {
     "exhaustive": [("1sess-2mbox-4msgs-depth6", dict(depth=6, maxid=4, sess=("A",), mbox=("inbox", "b"), acts=ALL))],
     "simulate": [("2mbox", dict(mbox=("inbox", "b"), maxid=6, maxpend=6, sets="SetsMedium", acts=ALL), 50, 24)],
